@@ -183,7 +183,10 @@ impl<'input> Lexer<'input> {
     {
         self.scanner.next_char();
 
-        let mut chars = vec![];
+        // `chars` is a `String` so that its length, which is used to record
+        // the positions of interpolation slots, is measured in bytes, like
+        // the indices used to slice the literal when it's interpolated.
+        let mut chars = String::new();
         let mut state = StrScanState::None;
         let mut first_hex_char = None;
 
@@ -285,7 +288,7 @@ impl<'input> Lexer<'input> {
             }
         }
 
-        let s = chars.into_iter().collect();
+        let s = chars;
 
         if interpolate {
             Ok(Token::InterpStrLiteral(s, interpolation_slots))
